@@ -253,7 +253,7 @@ def family_configs(family, nc):
     if family == "stv":
         return D.stv_configs(nc)
     if family == "droop":
-        return D.stv_configs(nc, quotas=("droop",), rules=("STV", "IRV"))
+        return D.stv_configs(nc, quotas=("droop",), rules=("STV", "IRV"), xfers=("fractional", "random"))
     if family == "oneshot":
         for r in ("Plurality", "SNTV"):
             for m in range(1, nc + 1):
@@ -271,7 +271,7 @@ def family_configs(family, nc):
             for m2 in range(1, m1 + 1):
                 for q in ("droop", "hare"):
                     for sm in (True, False):
-                        for x in ("fractional", "random"):
+                        for x in ("fractional", "random", "full"):
                             for tb in ("none", "random", "borda"):
                                 out.append(base_cfg(rule="Alaska", m=m2, m1=m1, quota=q, simul=sm, xfer=x, tb=tb))
     elif family == "tiered":
